@@ -139,7 +139,32 @@ def ctor(ctx, fi):
          'the catch-all handler does not end by raising MIDIConversionError (it swallows or re-raises the original)')
 
 
+def total_monotone(ctx, fi):
+  """Wherever midi_to_note_sequence assigns total_time inside a loop, the assignment must be a running maximum (guarded by
+  `value > total_time`, or max(total_time, ...)): a plain assignment in a loop is overwritten by later iterations, so notes
+  seen earlier can end after total_time.  Location-independent: decided for every such assignment, however the loops are arranged."""
+  fn = fi.node
+  n = 0
+  for st in U.walk_stmts(fn):
+    if not (isinstance(st, ast.Assign) and len(st.targets) == 1 and isinstance(st.targets[0], ast.Attribute) and st.targets[0].attr == 'total_time'):
+      continue
+    n += 1
+    ttxt = norm_text(st.targets[0])
+    vtxt = norm_text(st.value)
+    loops = U.enclosing_loops(fn, st)
+    tests = U.enclosing_tests(fn, st, stop_at=loops[-1] if loops else None)
+    guarded = any(U.is_gt_guard(tp, vtxt, ttxt) for tp in tests) or \
+        any(pol and isinstance(t, ast.BoolOp) and isinstance(t.op, ast.Or) and any(U.is_gt_guard((p_, True), vtxt, ttxt) for p_ in t.values) for (t, pol) in tests)
+    viamax = isinstance(st.value, ast.Call) and dotted(st.value.func) == 'max' and any(norm_text(a) == ttxt for a in st.value.args)
+    ok = guarded or viamax or not loops
+    ctx.ob('PAIR/total-monotone', fi, st, ok, 'total_time is only ever raised (running maximum)' if ok else
+           'total_time is assigned %s inside a loop without being compared with its current value: a later iteration lowers it below the end of a note seen earlier' % vtxt,
+           construct='total_time assignment is a running maximum: %s' % norm_text(st)[:80], definite=True)
+  ctx.require(n >= 1, 'midi_to_note_sequence never assigns total_time')
+
+
 def pairing(ctx, fi):
+  total_monotone(ctx, fi)
   fn = fi.node
   loop = None
   for n in ast.walk(fn):
